@@ -37,6 +37,25 @@ def run(ctx):
                     d, len(keys), len(res), ks[0][1], ks[1][1], ds.diff_keys(ks[0][0], ks[1][0])))
     finally:
         ds.cleanup(mods)
+    # the order in which the files of a package are registered in the token.FileSet (go/packages parses concurrently)
+    # is forced both ways: raw token.Pos values of different files must not leak into anything observable
+    import os
+    from . import wholetool as wt
+    fo_bad, fo_n = [], 0
+    for m in [os.path.join(common.VERIF, "corpus", "det", x) for x in ("m13", "m9", "m3")] + [os.path.join(common.VERIF, "corpus", "c10"), os.path.join(common.VERIF, "corpus", "c15"), os.path.join(common.VERIF, "corpus", "c20")]:
+        ks = {}
+        for order in ("asc", "desc"):
+            r, e = wt.analyze(m, fileorder=order)
+            fo_n += 1
+            if r is None:
+                fo_bad.append("%s with file order %s: run failed: %s" % (m, order, e))
+            else:
+                ks[order] = ds.key_of(r)
+        if len(ks) == 2 and ks["asc"] != ks["desc"]:
+            fo_bad.append("module %s: the output depends on the order in which the files are registered in the file set: %s" % (m, ds.diff_keys(ks["asc"], ks["desc"])))
+    ctx.obligation("forced file-set registration order (ascending / descending by name, %d runs): byte-identical diagnostics and facts" % fo_n, fo_n > 0 and not fo_bad)
+    for b in fo_bad[:2]:
+        ctx.violation("fileorder", "C04 fails on the real tool: %s\nreplay: bin/harness analyze -dir <module> -fileorder asc|desc\n" % b)
     ctx.obligation("repeated analysis (%d fresh processes over %d modules; GOMAXPROCS 1/2/16, sequential and parallel driver): byte-identical diagnostics and byte-identical facts of every kind" % (total, len(mods)), total > 0 and not bad and not errs)
     # engine level: the order in which the driver hands over the dependency facts (shuffled per run), with packages
     # that share one package NAME and differ only in their import path
